@@ -482,6 +482,37 @@ impl Key for (u64, u64) {
         &["low", "first", "second", "full"]
     }
 }
+/// (i32, i32, i32): 12 big-endian bytes, each component in offset binary (tuple order = byte order)
+impl Key for (i32, i32, i32) {
+    fn wide(&self) -> bool {
+        false
+    }
+    fn enc(&self, _wide: bool) -> Value {
+        let b = |x: i32| ((x as u32) ^ 0x8000_0000).to_be_bytes();
+        Value::Array([b(self.0), b(self.1), b(self.2)].concat().iter().map(|&x| json!(x)).collect())
+    }
+    fn kt(_wide: bool) -> &'static str {
+        "bytes"
+    }
+    fn mix(&self) -> u64 {
+        mix64((self.0 as u32 as u64) << 32 ^ (self.1 as u32 as u64) ^ mix64(self.2 as u32 as u64 ^ 0x333))
+    }
+    fn from_rank(dom: &str, x: u64) -> (i32, i32, i32) {
+        let s = |v: u64| ((v as u32) ^ 0x8000_0000) as i32;
+        match dom {
+            "low" => ((x >> 62) as i32 - 2, ((x >> 60) & 3) as i32 - 2, ((x >> 58) & 3) as i32),
+            "third" => (-1, 7, s(x >> 32)),
+            _ => (s(x >> 32), s(x & 0xffff_ffff), 5),
+        }
+    }
+    fn emb64(&self) -> u64 {
+        (self.0 as u32 as u64) << 32 | self.1 as u32 as u64
+    }
+    fn domains() -> &'static [&'static str] {
+        &["low", "third", "full"]
+    }
+}
+
 /// String: the byte-string domains with the alphabet mapped monotonically into printable ASCII
 impl Key for String {
     fn wide(&self) -> bool {
@@ -783,6 +814,17 @@ fn err_str<E: std::fmt::Display>(e: E) -> String {
 fn sort_case<T: Key>(cx: &mut Cx, c: &Case, desc: bool, f: &mut dyn FnMut(&mut Vec<T>) -> Result<(), String>) {
     let mut rng = cx.rng(&format!("sort/{}/{}", std::any::type_name::<T>(), c.tag()));
     let input: Vec<T> = gen(c.shape, c.dom, c.n, &mut rng);
+    sort_given(cx, c.shape, c.dom, input, desc, f)
+}
+
+/// one sorting call on a given input (see sort_case)
+fn sort_given<T: Key>(cx: &mut Cx, shape: &str, dom: &str, input: Vec<T>, desc: bool, f: &mut dyn FnMut(&mut Vec<T>) -> Result<(), String>) {
+    struct C<'a> {
+        shape: &'a str,
+        dom: &'a str,
+        n: usize,
+    }
+    let c = C { shape, dom, n: input.len() };
     let ord = if desc { "desc" } else { "asc" };
     let small = c.n <= SMALL_MAX;
     let w_in = any_wide(&[&input]);
@@ -1467,6 +1509,21 @@ fn fam_co(cx: &mut Cx) {
 
 // ------------------------------------------------------------------ family: ReplaceSelectSort
 
+/// ReplaceSelectSort::sort consumes its input: on Err the caller is left with NOTHING, and that is what the
+/// event shows (the refusal of a sort is accepted only if what is handed back is a permutation of the input)
+fn rss_result<T>(v: &mut Vec<T>, r: Result<Vec<T>, String>) -> Result<(), String> {
+    match r {
+        Ok(out) => {
+            *v = out;
+            Ok(())
+        }
+        Err(e) => {
+            v.clear();
+            Err(e)
+        }
+    }
+}
+
 fn rss_cfg(buf_bytes: usize, ways: usize, secure: bool) -> ReplaceSelectSortConfig {
     ReplaceSelectSortConfig {
         memory_buffer_size: buf_bytes,
@@ -1490,9 +1547,129 @@ macro_rules! rss_type {
             for c in small_cases::<$t>(cx, $si, lens) {
                 sort_case::<$t>(cx, &c, false, &mut |v| {
                     let mut s = ReplaceSelectSort::<$t>::new(rss_cfg(bytes, 16, false));
-                    let out = s.sort(v.clone()).map_err(err_str)?;
-                    *v = out;
-                    Ok(())
+                    rss_result(v, s.sort(v.clone()).map_err(err_str))
+                });
+            }
+        }
+    }};
+}
+
+/// ascending stretches one after the other: replacement selection closes a run at every descent, so the
+/// stretch lengths are (about) the run lengths of the spilled files
+fn stretches<T: Key>(cx: &Cx, tag: &str, lens: &[usize]) -> Vec<T> {
+    let mut rng = cx.rng(&format!("spill/{}/{tag}", std::any::type_name::<T>()));
+    let dom = if T::domains().contains(&"full") { "full" } else { T::domains()[0] };
+    lens.iter().flat_map(|&n| gen::<T>("sorted", dom, n, &mut rng)).collect()
+}
+/// ascending byte strings (7-digit counter + padding, 7..40 bytes) whose spilled records (8-byte size header,
+/// 8-byte length, bytes) add up to exactly `total` bytes: run files of exactly that size
+fn sized_strings(total: usize, seed: usize) -> Vec<Vec<u8>> {
+    let rec = |pad: usize| 23 + pad;
+    let (mut v, mut left, mut i) = (vec![], total, 0usize);
+    let mk = |i: usize, pad: usize| {
+        let mut s = format!("{:07}", i).into_bytes();
+        s.resize(7 + pad, b'a' + ((i + seed) % 20) as u8);
+        s
+    };
+    while left >= rec((i + seed) % 13) + 46 {
+        let pad = (i + seed) % 13;
+        v.push(mk(i, pad));
+        left -= rec(pad);
+        i += 1;
+    }
+    for r in [left / 2, left - left / 2] {
+        if r >= 23 {
+            v.push(mk(i, r - 23));
+            i += 1;
+        }
+    }
+    v
+}
+
+/// spill-to-disk paths of ReplaceSelectSort for one element type: 1, 2, 3 and many runs whose files cross the
+/// 8 KiB / 16 KiB / 64 KiB / 1 MiB marks; $rec = bytes of one spilled record (0 = variable)
+macro_rules! rss_spill {
+    ($t:ty, $cx:expr, $elem:expr, $rec:expr, $conv:expr) => {{
+        let cx: &mut Cx = $cx;
+        let rec: usize = $rec;
+        let conv: fn(Vec<u8>) -> $t = $conv;
+        // (label, input)
+        let mut inputs: Vec<(String, Vec<$t>)> = vec![];
+        if rec > 0 {
+            let c = |bytes: usize| bytes / rec;
+            let lists: Vec<(&str, Vec<usize>)> = vec![
+                ("one_run_8k", vec![c(8192) + 1]),
+                ("one_run_8k_minus", vec![c(8192)]),
+                ("two_runs_8k", vec![c(8192) + 1, c(8192) + 2]),
+                ("three_runs_16k", vec![c(16384) + 1, c(8192), c(16384) - 1]),
+                ("two_runs_64k", vec![c(65536) + 1, c(65536)]),
+                ("many_runs", vec![c(8192) + 3, 50, c(8192) + 1, 7, 400, c(16384) + 2, 1, c(8192), 90, c(8192) + 5, 3, 600]),
+            ];
+            for (l, lens) in lists {
+                inputs.push((l.to_string(), stretches::<$t>(cx, l, &lens)));
+            }
+            if rec == 24 || cx.thorough {
+                inputs.push(("two_runs_1m".into(), stretches::<$t>(cx, "1m", &[c(1 << 20) + 1, c(1 << 20) - 1])));
+            }
+        } else {
+            for (l, sizes) in [
+                ("one_run_8191", vec![8191usize]),
+                ("one_run_8192", vec![8192]),
+                ("one_run_8193", vec![8193]),
+                ("two_runs_8192_8193", vec![8192, 8193]),
+                ("three_runs_16k", vec![16384 - 30, 16384, 16384 + 30]),
+                ("two_runs_64k", vec![65536, 65536 + 1]),
+                ("many_runs", vec![8193, 900, 8191, 16385, 300, 8192, 24577, 8200, 100, 8190]),
+            ] {
+                let input: Vec<$t> = sizes.iter().enumerate().flat_map(|(i, &b)| sized_strings(b, i)).map(|x| conv(x)).collect();
+                inputs.push((l.to_string(), input));
+            }
+            if cx.thorough {
+                inputs.push(("two_runs_1m".into(), [1usize << 20, (1 << 20) + 1].iter().enumerate().flat_map(|(i, &b)| sized_strings(b, i)).map(|x| conv(x)).collect()));
+            }
+        }
+        // nearly sorted (three swaps in 3000 ascending elements: a few long runs), reversed and random (one short
+        // run per descent; every run costs an fsync, so these stay small), random through a budget that holds
+        // everything (one long run, read straight back)
+        {
+            let mut rng = cx.rng(&format!("spill/{}/nearly", $elem));
+            let mut v = stretches::<$t>(cx, "nearly", &[3000]);
+            for _ in 0..3 {
+                let (i, j) = (rng.below(3000) as usize, rng.below(3000) as usize);
+                v.swap(i, j);
+            }
+            inputs.push(("nearly".to_string(), v));
+        }
+        for (shape, n) in [("reversed", 120usize), ("rand", 250), ("rand_all_in_memory", 1500)] {
+            let mut rng = cx.rng(&format!("spill/{}/{shape}", $elem));
+            let dom = if <$t as Key>::domains().contains(&"full") { "full" } else { <$t as Key>::domains()[0] };
+            inputs.push((shape.to_string(), gen::<$t>(if shape == "reversed" { "reversed" } else { "rand" }, dom, n, &mut rng)));
+        }
+        let es = std::mem::size_of::<$t>();
+        for (entry, buf_items) in [("new", 1usize), ("new", 3), ("vec_trait", 2), ("cmp_natural", 4), ("new", 100_000)] {
+            let name = format!("rss:spill/{}@{entry}/buf{buf_items}", $elem);
+            if !cx.subject(&name, json!({"elem": $elem, "buf_items": buf_items.min(1 << 20), "merge_ways": 16, "cmp": "ord", "entry": entry})) {
+                continue;
+            }
+            for (ci, (label, input)) in inputs.iter().enumerate() {
+                // quick tier: every input meets two of the five entry/budget combinations
+                if !cx.thorough && buf_items != 1 && (ci + buf_items) % 3 != 0 {
+                    continue;
+                }
+                if (label == "rand_all_in_memory") != (buf_items == 100_000) && !label.starts_with("one_run") {
+                    continue;
+                }
+                let cfg = rss_cfg(buf_items * es, 16, false);
+                sort_given::<$t>(cx, label, "spill", input.clone(), false, &mut |v| match entry {
+                    "vec_trait" => v.external_sort_with_config(cfg.clone()).map_err(err_str),
+                    "cmp_natural" => {
+                        let mut s = ReplaceSelectSort::with_comparator(cfg.clone(), |a: &$t, b: &$t| a.cmp(b));
+                        rss_result(v, s.sort(v.clone()).map_err(err_str))
+                    }
+                    _ => {
+                        let mut s = ReplaceSelectSort::<$t>::new(cfg.clone());
+                        rss_result(v, s.sort(v.clone()).map_err(err_str))
+                    }
                 });
             }
         }
@@ -1518,9 +1695,7 @@ fn fam_rss(cx: &mut Cx) {
         for c in cases {
             sort_case::<u64>(cx, &c, false, &mut |v| {
                 let mut s = ReplaceSelectSort::<u64>::new(rss_cfg(bytes, w, false));
-                let out = s.sort(v.clone()).map_err(err_str)?;
-                *v = out;
-                Ok(())
+                rss_result(v, s.sort(v.clone()).map_err(err_str))
             });
         }
     }
@@ -1533,9 +1708,7 @@ fn fam_rss(cx: &mut Cx) {
         for c in small_cases::<u64>(cx, 60 + buf, lens) {
             sort_case::<u64>(cx, &c, true, &mut |v| {
                 let mut s = ReplaceSelectSort::with_comparator(rss_cfg(8 * buf, 16, false), |a: &u64, b: &u64| b.cmp(a));
-                let out = s.sort(v.clone()).map_err(err_str)?;
-                *v = out;
-                Ok(())
+                rss_result(v, s.sort(v.clone()).map_err(err_str))
             });
         }
     }
@@ -1544,9 +1717,7 @@ fn fam_rss(cx: &mut Cx) {
         for c in small_cases::<Vec<u8>>(cx, 70, lens) {
             sort_case::<Vec<u8>>(cx, &c, false, &mut |v| {
                 let mut s = ReplaceSelectSort::<Vec<u8>>::new(rss_cfg(96, 16, true));
-                let out = s.sort(v.clone()).map_err(err_str)?;
-                *v = out;
-                Ok(())
+                rss_result(v, s.sort(v.clone()).map_err(err_str))
             });
         }
     }
@@ -1555,6 +1726,11 @@ fn fam_rss(cx: &mut Cx) {
             sort_case::<u64>(cx, &c, false, &mut |v| v.external_sort_with_config(rss_cfg(32, 16, false)).map_err(err_str));
         }
     }
+    rss_spill!(u128, cx, "u128", 24, |_| 0);
+    rss_spill!((u64, u64), cx, "pair_u64", 24, |_| (0, 0));
+    rss_spill!((i32, i32, i32), cx, "triple_i32", 20, |_| (0, 0, 0));
+    rss_spill!(String, cx, "string", 0, |b| String::from_utf8(b).unwrap());
+    rss_spill!(Vec<u8>, cx, "bytes", 0, |b| b);
     rss_type!(String, cx, "string", 3usize, 80);
     rss_type!((u64, u64), cx, "pair_u64", 2usize, 81);
     rss_type!(u8, cx, "u8", 5usize, 82);
@@ -1566,9 +1742,7 @@ fn fam_rss(cx: &mut Cx) {
         for c in big_cases::<u64>(0, lens, &["rand", "runs", "reversed"], u64::domains()) {
             sort_case::<u64>(cx, &c, false, &mut |v| {
                 let mut s = ReplaceSelectSort::<u64>::new(rss_cfg(8192, 16, false));
-                let out = s.sort(v.clone()).map_err(err_str)?;
-                *v = out;
-                Ok(())
+                rss_result(v, s.sort(v.clone()).map_err(err_str))
             });
         }
     }
